@@ -2134,45 +2134,39 @@ func foldTxnStateMachine(w *core.World, r *core.Report, f *ssa.Function, st map[
 	if cmdPar == nil || prevPar == nil {
 		return false
 	}
-	// the command is only ever looked up in the table
-	var table *ssa.Global
-	for _, rf := range *cmdPar.Referrers() {
-		switch x := rf.(type) {
-		case *ssa.DebugRef:
-		case *ssa.Lookup:
-			ld, ok := x.X.(*ssa.UnOp)
-			if !ok || x.Index != ssa.Value(cmdPar) {
-				return false
-			}
-			g, ok := ld.X.(*ssa.Global)
-			if !ok || (table != nil && g != table) {
-				return false
-			}
-			table = g
-		default:
-			return false
-		}
-	}
-	if table == nil {
-		return false
-	}
-	cf := &constFolder{w: w}
-	content, known := cf.mapLiteral(table)
-	if !known {
+	// the command is only ever tested for equality with constants: looked up in one literal table, compared with
+	// string constants (a switch over the command), here or in a helper it is handed to (r7_n2.go)
+	table, compared, okUses := cmdEqualityUses(cmdPar, 0)
+	if !okUses || (table == nil && len(compared) == 0) {
 		return false
 	}
 	tab := map[string]int64{}
-	for _, e := range content {
-		v, isC := e.val.(constant.Value)
-		if e.key.Kind() != constant.String || !isC || v.Kind() != constant.Int {
+	if table != nil {
+		cf := &constFolder{w: w}
+		content, known := cf.mapLiteral(table)
+		if !known {
 			return false
 		}
-		k, _ := constant.Int64Val(v)
-		tab[constant.StringVal(e.key)] = k
+		for _, e := range content {
+			v, isC := e.val.(constant.Value)
+			if e.key.Kind() != constant.String || !isC || v.Kind() != constant.Int {
+				return false
+			}
+			k, _ := constant.Int64Val(v)
+			tab[constant.StringVal(e.key)] = k
+		}
 	}
 	cmds := []string{"\x00any other command"}
 	for k := range tab {
 		cmds = append(cmds, k)
+	}
+	for _, k := range compared {
+		if _, inTab := tab[k]; !inTab {
+			cmds = append(cmds, k)
+		}
+		if k == cmds[0] {
+			return false
+		}
 	}
 	sort.Strings(cmds)
 	eval := func(prev int64, cmd string) (next int64, flush, ok bool) {
@@ -2202,6 +2196,20 @@ func foldTxnStateMachine(w *core.World, r *core.Report, f *ssa.Function, st map[
 		for _, c := range cmds {
 			if _, _, ok := eval(prev, c); !ok {
 				return false
+			}
+		}
+	}
+	tablePos := f.Pos()
+	if table != nil {
+		tablePos = table.Pos()
+	} else {
+		// no table object: the commands are told apart by comparisons. The table the function implements is read
+		// off its results in the idle state (a command that asks for a flush there is a table command, with the
+		// state it leads to); the checks below then hold the function to that table in every state and the table
+		// to {select, multi, exec} — together: the function is the specified one on its whole domain.
+		for _, c := range cmds[1:] {
+			if next, flush, _ := eval(st["no"], c); flush {
+				tab[c] = next
 			}
 		}
 	}
@@ -2251,7 +2259,12 @@ func foldTxnStateMachine(w *core.World, r *core.Report, f *ssa.Function, st map[
 			okV = false
 		}
 	}
-	r.Check(okK, "transactionCmdMap/keys", table.Pos(), "command table must be exactly {select, multi, exec}, found %v", cmds[1:])
-	r.Check(okV, "transactionCmdMap/values", table.Pos(), "command table must map select→barrier, multi→begin, exec→commit, found %v", tab)
+	var keys []string
+	for k := range tab {
+		keys = append(keys, k)
+	}
+	sort.Strings(keys)
+	r.Check(okK, "transactionCmdMap/keys", tablePos, "command table must be exactly {select, multi, exec}, found %v", keys)
+	r.Check(okV, "transactionCmdMap/values", tablePos, "command table must map select→barrier, multi→begin, exec→commit, found %v", tab)
 	return true
 }
